@@ -154,10 +154,33 @@ Proof.
   assert (Hp : pc_tr_T2_exp_pris Rops (d0,d1,0) th = true).
   { gen_unfold. fold tiny. rewrite !andb_true_iff, !negb_true_iff, Rltb_false, !Rltb_true. rewrite E.
     rewrite Rmult_0_l, Rabs_R0. repeat split; try lra; try (rewrite Rmult_0_r, Rmult_0_l; lra). }
-  rewrite Hp. f_equal. gen_unfold. rewrite !E2, !sqrt_sq_abs.
-  abs_cases th; tuple_eq ltac:(field; lra).
+  rewrite Hp. f_equal. gen_unfold. tuple_eq ltac:(ring).
 Qed.
 Print Assumptions C18_T2_exp_pris_closed_form.
+
+(* the irrotational path of trexp2 (since fix 3bd9c1c unittwist2_norm zeroes the sub-threshold w) is the pure
+   translation theta v for EVERY twist on that path *)
+Theorem C18_T2_exp_pris_path : forall v0 v1 w th,
+  tr_T2_exp_pris Rops (v0,v1,w) th = rt2tr2 Rops (I22 Rops) (th*v0, th*v1).
+Proof. intros. gen_unfold. tuple_eq ltac:(ring). Qed.
+Print Assumptions C18_T2_exp_pris_path.
+
+(* so Twist2.exp is covered for every planar revolute twist: in the band |theta| < 10 eps <= |theta| |S| the
+   irrotational path is taken *)
+Theorem C18_T2_exp_band_path : forall v0 v1 th, Rabs th < tiny <= Rabs th * sqrt (v0*v0 + v1*v1 + 1*1) ->
+  T2_exp (v0,v1,1) th = Some (rt2tr2 Rops (I22 Rops) (th*v0, th*v1)).
+Proof.
+  intros v0 v1 th [H1 H2]. unfold T2_exp.
+  assert (Hz : pc_tr_T2_exp_zero Rops (v0,v1,1) th = false) by (apply not_true_is_false; rewrite C18_T2_pc_zero_iff; lra).
+  assert (Hr : pc_tr_T2_exp_rev Rops (v0,v1,1) th = false) by (apply not_true_is_false; rewrite C18_T2_pc_rev_unit; lra).
+  rewrite Hz, Hr.
+  assert (Hp : pc_tr_T2_exp_pris Rops (v0,v1,1) th = true).
+  { clear Hr. revert Hz. gen_unfold. fold tiny. intros Hz. rewrite andb_true_r in Hz. apply Rltb_false in Hz.
+    rewrite !andb_true_iff, negb_true_iff, Rltb_false, Rltb_true. repeat split; try assumption.
+    replace (1 * th) with th by ring. lra. }
+  rewrite Hp. now rewrite C18_T2_exp_pris_path.
+Qed.
+Print Assumptions C18_T2_exp_band_path.
 
 Theorem C18_T2_Prismatic_exp : forall a th, pc_tr_T2_Prismatic Rops a = true -> tiny <= Rabs th \/ th = 0 ->
   T2_exp (tr_T2_Prismatic Rops a) th = Some (rt2tr2 Rops (I22 Rops) (vscale2 Rops th (unitv2 Rops a))).
